@@ -19,6 +19,10 @@ and of the rejection theorem (`complement_reject`):
 * node keys starting at `k0` (`strandGraphFrom`, `specGraphFrom`): `complement_shift` — the model commutes
   with renaming the keys `x ↦ x + k` of *any* residue graph — plus `strandGraphFrom_eq_shift`,
   `specGraphFrom_eq_shift` give `complement_offset` / `complement_reject_offset` from the k0 = 0 theorems.
+* resids starting at `r0` (`strandGraphAt`, `specGraphAt`): `complement_shiftResids` — the model commutes
+  with renumbering the resids `r ↦ r + d` of any residue graph — and `shiftResids_injective` (to go DOWN
+  from resid 1 to resid 0 first) give `complement_at` / `complement_reject_at`.
+* `genParams_dsdna`: the `gen_params -dsdna` pipeline up to `MapToMolecule`, both strand sources.
 -/
 import PolyplyVerif.Model.Dna
 
@@ -1586,27 +1590,328 @@ theorem specGraphFrom_congr (k0 : Nat) (t1 t2 : List (String × String))
   rw [specGraphFrom_eq_shift, specGraphFrom_eq_shift, specGraph_congr t1 t2 h]
 
 
-theorem strand_resnames (names : List String) (labels : List Attrs) (circ : Option Attrs) :
-    (strandGraph names labels circ).nodes.map (·.resname) = names := by
-  apply List.ext_getElem
-  · simp [strandGraph]
-  · intro i h1 h2
-    simp [strandGraph]
 
-theorem final_resnames (tbl : List (String × String)) (names : List String) (labels : List Attrs)
-    (circ : Option Attrs) (hk : ∀ nm ∈ names, (lookup tbl nm).isSome) :
-    (finalGraph tbl names labels circ).nodes.map (fun x => some x.resname) =
-      names.map some ++ names.reverse.map (lookup tbl) := by
-  have h := List.take_append_drop names.length (finalGraph tbl names labels circ).nodes
-  rw [← h, List.map_append, final_second_names tbl names labels circ hk, final_nodes_take]
-  congr 1
-  rw [← strand_resnames names labels circ, List.map_map]
-  rw [strand_resnames]
+/-! ### equivariance of the model under renumbering the resids `r ↦ r + d` -/
+
+def shiftRNode (d : Nat) (n : RNode) : RNode := { n with resid := n.resid + d }
+
+theorem shiftResids_eq (g : RGraph) (d : Nat) :
+    g.shiftResids d = ⟨g.nodes.map (shiftRNode d), g.edges, g.maxResid + d⟩ := rfl
+
+theorem node?_shiftR (g : RGraph) (d x : Nat) :
+    (g.shiftResids d).node? x = (g.node? x).map (shiftRNode d) := by
+  unfold RGraph.node?
+  rw [shiftResids_eq]
+  simp only [List.find?_map]
   rfl
 
-theorem shiftKeys_resnames {β} (g : RGraph) (k : Nat) (f : String → β) :
-    (g.shiftKeys k).nodes.map (fun x => f x.resname) = g.nodes.map (fun x => f x.resname) := by
-  simp [RGraph.shiftKeys]
+theorem resid?_shiftR (g : RGraph) (d x : Nat) :
+    (g.shiftResids d).resid? x = (g.resid? x).map (· + d) := by
+  unfold RGraph.resid?
+  rw [node?_shiftR]
+  cases g.node? x <;> simp [shiftRNode]
+
+theorem resname?_shiftR (g : RGraph) (d x : Nat) :
+    (g.shiftResids d).resname? x = g.resname? x := by
+  unfold RGraph.resname?
+  rw [node?_shiftR]
+  cases g.node? x <;> simp [shiftRNode]
+
+theorem edge?_shiftR (g : RGraph) (d a b : Nat) : (g.shiftResids d).edge? a b = g.edge? a b := rfl
+theorem neighbors_shiftR (g : RGraph) (d x : Nat) : (g.shiftResids d).neighbors x = g.neighbors x := rfl
+
+theorem addNode_shiftR (g : RGraph) (d x : Nat) (nm : String) :
+    (g.shiftResids d).addNode x nm = (g.addNode x nm).shiftResids d := by
+  simp [RGraph.addNode, RGraph.shiftResids]; omega
+
+theorem addEdge_shiftR (g : RGraph) (d a b : Nat) :
+    (g.shiftResids d).addEdge a b = (g.addEdge a b).shiftResids d := by
+  unfold RGraph.addEdge
+  have : (g.shiftResids d).hasEdge a b = g.hasEdge a b := rfl
+  rw [this]
+  by_cases h : g.hasEdge a b
+  · simp [h]
+  · simp [h, RGraph.shiftResids]
+
+theorem updateEdgeAttrs_shiftR (g : RGraph) (d a b : Nat) (at' : Attrs) :
+    (g.shiftResids d).updateEdgeAttrs a b at' = (g.updateEdgeAttrs a b at').shiftResids d := rfl
+
+theorem iterStep_shiftR (g : RGraph) (d first src : Nat) :
+    iterStep (g.shiftResids d) first src = iterStep g first src := by
+  unfold iterStep
+  rw [resid?_shiftR, neighbors_shiftR]
+  cases g.resid? src with
+  | none => rfl
+  | some rs =>
+    simp only [Option.map_some]
+    congr 1
+    funext nn
+    rw [resid?_shiftR]
+    cases g.resid? nn with
+    | none => rfl
+    | some rn =>
+      simp only [Option.map_some]
+      have e1 : (rs + d = rn + d + 1) = (rs = rn + 1) := by
+        apply propext; constructor <;> intro h <;> omega
+      have e2 : (rn + d > rs + d) = (rn > rs) := by
+        apply propext; constructor <;> intro h <;> omega
+      simp only [e1, e2]
+
+def shiftRSt (d : Nat) (s : St) : St := { s with g := s.g.shiftResids d }
+
+theorem body_shiftR (tbl : List (String × String)) (s : St) (d prev next : Nat) :
+    body tbl (shiftRSt d s) prev next = (body tbl s prev next).map (shiftRSt d) := by
+  unfold body
+  simp only [shiftRSt, resname?_shiftR, edge?_shiftR]
+  cases s.g.resname? next with
+  | none => rfl
+  | some rn =>
+    simp only
+    cases lookup tbl rn with
+    | none => rfl
+    | some comp =>
+      simp only
+      cases corrOf s.corr prev with
+      | none => rfl
+      | some cprev =>
+        simp only
+        cases corrOf s.corr next with
+        | none =>
+          simp only [Except.map]
+          rw [addNode_shiftR, addEdge_shiftR, updateEdgeAttrs_shiftR]
+          rfl
+        | some cnext =>
+          simp only [Except.map]
+          rw [addEdge_shiftR, updateEdgeAttrs_shiftR]
+          rfl
+
+theorem loop_shiftR (tbl : List (String × String)) (d first fuel src : Nat) (s : St) :
+    loop tbl first fuel src (shiftRSt d s) = (loop tbl first fuel src s).map (shiftRSt d) := by
+  induction fuel generalizing src s with
+  | zero => rfl
+  | succ fuel ih =>
+    rw [loop, loop]
+    have e0 : (shiftRSt d s).g = s.g.shiftResids d := rfl
+    rw [e0, iterStep_shiftR]
+    cases iterStep s.g first src with
+    | none => rfl
+    | some p =>
+      obtain ⟨nn, stop⟩ := p
+      simp only
+      rw [body_shiftR]
+      cases body tbl s src nn with
+      | error e => rfl
+      | ok s' =>
+        simp only [Except.map]
+        cases stop with
+        | true => rfl
+        | false => exact ih nn s'
+
+/-- **Equivariance in the resids**: renumbering the residues of *any* residue graph by `r ↦ r + d`
+commutes with the model of `complement_dsDNA` (the code only compares resids with each other and
+numbers new residues after `max_resid`). -/
+theorem complement_shiftResids (tbl : List (String × String)) (g : RGraph) (d : Nat) :
+    complement tbl (g.shiftResids d) = (complement tbl g).map (·.shiftResids d) := by
+  unfold complement
+  have hl : (g.shiftResids d).nodes.getLast? = g.nodes.getLast?.map (shiftRNode d) := by
+    rw [shiftResids_eq]; simp [List.getLast?_map]
+  rw [hl]
+  cases g.nodes.getLast? with
+  | none => rfl
+  | some last =>
+    simp only [Option.map_some, shiftRNode]
+    cases lookup tbl last.resname with
+    | none => rfl
+    | some comp =>
+      simp only
+      have hs : ({ g := (g.shiftResids d).addNode (last.key + 1) comp,
+                   corr := [(last.key, last.key + 1)], total := last.key + 1 } : St) =
+          shiftRSt d { g := g.addNode (last.key + 1) comp, corr := [(last.key, last.key + 1)],
+                       total := last.key + 1 } := by
+        simp [shiftRSt, addNode_shiftR]
+      have hlen : (g.shiftResids d).nodes.length = g.nodes.length := by simp [RGraph.shiftResids]
+      rw [hs, hlen, loop_shiftR]
+      cases loop tbl last.key (g.nodes.length + 1) last.key
+          { g := g.addNode (last.key + 1) comp, corr := [(last.key, last.key + 1)], total := last.key + 1 } with
+      | error e => rfl
+      | ok s => rfl
+
+theorem map_inj_of_injective {α β} (f : α → β) (hf : Function.Injective f) (l1 l2 : List α)
+    (h : l1.map f = l2.map f) : l1 = l2 := by
+  induction l1 generalizing l2 with
+  | nil => cases l2 with
+    | nil => rfl
+    | cons _ _ => simp at h
+  | cons a l1 ih =>
+    cases l2 with
+    | nil => simp at h
+    | cons b l2 =>
+      simp only [List.map_cons, List.cons.injEq] at h
+      rw [hf h.1, ih l2 h.2]
+
+theorem shiftResids_injective (a b : RGraph) (d : Nat) (h : a.shiftResids d = b.shiftResids d) : a = b := by
+  obtain ⟨an, ae, am⟩ := a
+  obtain ⟨bn, be, bm⟩ := b
+  simp only [RGraph.shiftResids, RGraph.mk.injEq] at h
+  obtain ⟨h1, h2, h3⟩ := h
+  have hinj : Function.Injective (fun n : RNode => ({ n with resid := n.resid + d } : RNode)) := by
+    intro x y hxy
+    obtain ⟨xk, xr, xn⟩ := x
+    obtain ⟨yk, yr, yn⟩ := y
+    simp only [RNode.mk.injEq] at hxy ⊢
+    exact ⟨hxy.1, by omega, hxy.2.2⟩
+  have := map_inj_of_injective _ hinj an bn h1
+  subst this; subst h2
+  have : am = bm := by omega
+  subst this; rfl
+
+theorem except_map_ok {ε α β} (f : α → β) (x : Except ε α) (y : β) (h : x.map f = .ok y) :
+    ∃ x', x = .ok x' ∧ f x' = y := by
+  cases x with
+  | error e => cases h
+  | ok a => exact ⟨a, rfl, by simpa [Except.map] using h⟩
+
+theorem except_map_error {ε α β} (f : α → β) (x : Except ε α) (e : ε) (h : x.map f = .error e) :
+    x = .error e := by
+  cases x with
+  | error e' => simpa [Except.map] using h
+  | ok a => cases h
+
+
+theorem strandGraphAt_shift (k0 r0 : Nat) (names : List String) (labels : List Attrs) (circ : Option Attrs)
+    (hn : 1 ≤ names.length) :
+    strandGraphAt k0 r0 names labels circ = (strandGraphAt k0 0 names labels circ).shiftResids r0 := by
+  unfold strandGraphAt RGraph.shiftResids
+  simp only [List.map_map, RGraph.mk.injEq, true_and]
+  constructor
+  · apply List.map_congr_left
+    intro p _
+    simp [Nat.add_comm]
+  · omega
+
+theorem strandGraphAt_one (k0 : Nat) (names : List String) (labels : List Attrs) (circ : Option Attrs) :
+    strandGraphAt k0 1 names labels circ = strandGraphFrom k0 names labels circ := by
+  unfold strandGraphAt
+  simp only [strandGraphFrom, RGraph.mk.injEq, true_and]
+  constructor
+  · apply List.map_congr_left
+    intro p _
+    simp [Nat.add_comm]
+  · omega
+
+theorem specGraphAt_shift (k0 r0 : Nat) (tbl : List (String × String)) (names : List String)
+    (labels : List Attrs) (circ : Option Attrs) (hn : 1 ≤ names.length) :
+    specGraphAt k0 r0 tbl names labels circ =
+      (specGraphAt k0 0 tbl names labels circ).map (·.shiftResids r0) := by
+  unfold specGraphAt
+  cases names.reverse.mapM (lookup tbl) with
+  | none => rfl
+  | some comps =>
+    simp only [Option.map_some, Option.some.injEq]
+    rw [strandGraphAt_shift k0 r0 names labels circ hn]
+    unfold RGraph.shiftResids
+    simp only [List.map_append, List.map_map, RGraph.mk.injEq, true_and]
+    refine ⟨?_, by omega⟩
+    congr 1
+    apply List.map_congr_left
+    intro p _
+    simp [Nat.add_comm]
+
+theorem specGraphAt_one (k0 : Nat) (tbl : List (String × String)) (names : List String)
+    (labels : List Attrs) (circ : Option Attrs) :
+    specGraphAt k0 1 tbl names labels circ = specGraphFrom k0 tbl names labels circ := by
+  unfold specGraphAt specGraphFrom
+  cases names.reverse.mapM (lookup tbl) with
+  | none => rfl
+  | some comps =>
+    simp only [Option.some.injEq]
+    rw [strandGraphAt_one]
+    simp only [RGraph.mk.injEq, true_and]
+    refine ⟨?_, by omega⟩
+    congr 1
+    apply List.map_congr_left
+    intro p _
+    simp [Nat.add_comm]
+
+/-- Goal 1 for node keys from `k0` and resids from `r0` -/
+theorem complement_at (k0 r0 : Nat) (tbl : List (String × String)) (names : List String)
+    (labels : List Attrs) (circ : Option Attrs)
+    (hn : 1 ≤ names.length) (hc : circ.isSome → 3 ≤ names.length)
+    (hk : ∀ nm ∈ names, (lookup tbl nm).isSome) :
+    ∃ g, specGraphAt k0 r0 tbl names labels circ = some g ∧
+      complement tbl (strandGraphAt k0 r0 names labels circ) = .ok g := by
+  obtain ⟨G, hspec, hcomp⟩ := complement_offset k0 tbl names labels circ hn hc hk
+  rw [← strandGraphAt_one, strandGraphAt_shift k0 1 names labels circ hn, complement_shiftResids] at hcomp
+  obtain ⟨g0, hg0, hg0G⟩ := except_map_ok _ _ _ hcomp
+  rw [← specGraphAt_one, specGraphAt_shift k0 1 tbl names labels circ hn] at hspec
+  cases hs0 : specGraphAt k0 0 tbl names labels circ with
+  | none => rw [hs0] at hspec; cases hspec
+  | some s0 =>
+    rw [hs0] at hspec
+    simp only [Option.map_some, Option.some.injEq] at hspec
+    have : g0 = s0 := shiftResids_injective g0 s0 1 (by rw [hg0G, hspec])
+    subst this
+    refine ⟨g0.shiftResids r0, ?_, ?_⟩
+    · rw [specGraphAt_shift k0 r0 tbl names labels circ hn, hs0]; rfl
+    · rw [strandGraphAt_shift k0 r0 names labels circ hn, complement_shiftResids, hg0]; rfl
+
+/-- Goal 2 for node keys from `k0` and resids from `r0` -/
+theorem complement_reject_at (k0 r0 : Nat) (tbl : List (String × String)) (names : List String)
+    (labels : List Attrs) (circ : Option Attrs)
+    (hn : 1 ≤ names.length) (hc : circ.isSome → 3 ≤ names.length)
+    (hbad : ∃ nm ∈ names, lookup tbl nm = none) :
+    complement tbl (strandGraphAt k0 r0 names labels circ) = .error "unknown-resname" := by
+  have h := complement_reject_offset k0 tbl names labels circ hn hc hbad
+  rw [← strandGraphAt_one, strandGraphAt_shift k0 1 names labels circ hn, complement_shiftResids] at h
+  have h0 := except_map_error _ _ _ h
+  rw [strandGraphAt_shift k0 r0 names labels circ hn, complement_shiftResids, h0]; rfl
+
+theorem specGraphAt_congr (k0 r0 : Nat) (t1 t2 : List (String × String))
+    (h : ∀ nm, lookup t1 nm = lookup t2 nm)
+    (names : List String) (labels : List Attrs) (circ : Option Attrs) :
+    specGraphAt k0 r0 t1 names labels circ = specGraphAt k0 r0 t2 names labels circ := by
+  have : lookup t1 = lookup t2 := funext h
+  unfold specGraphAt
+  rw [this]
+
+
+theorem map_of_mapM_eq_some {α β} (f : α → Option β) (l : List α) (r : List β)
+    (h : l.mapM f = some r) : l.map f = r.map some := by
+  obtain ⟨hlen, hget⟩ := mapM_eq_some_map f l r h
+  apply List.ext_getElem
+  · simp [hlen]
+  · intro i h1 h2
+    simp at h1 h2
+    simp [hget i h1 h2]
+
+theorem strandGraphAt_resnames (k0 r0 : Nat) (names : List String) (labels : List Attrs) (circ : Option Attrs) :
+    (strandGraphAt k0 r0 names labels circ).nodes.map (·.resname) = names := by
+  apply List.ext_getElem
+  · simp [strandGraphAt]
+  · intro i h1 h2
+    simp [strandGraphAt]
+
+theorem specGraphAt_resnames (k0 r0 : Nat) (tbl : List (String × String)) (names : List String)
+    (labels : List Attrs) (circ : Option Attrs) (g : RGraph)
+    (h : specGraphAt k0 r0 tbl names labels circ = some g) :
+    g.nodes.map (fun x => some x.resname) = names.map some ++ names.reverse.map (lookup tbl) := by
+  unfold specGraphAt at h
+  cases hm : names.reverse.mapM (lookup tbl) with
+  | none => rw [hm] at h; cases h
+  | some comps =>
+    rw [hm] at h
+    simp only [Option.some.injEq] at h
+    subst h
+    simp only [List.map_append, List.map_map]
+    congr 1
+    · have := strandGraphAt_resnames k0 r0 names labels circ
+      rw [← this, List.map_map]
+      rw [this]; rfl
+    · rw [map_of_mapM_eq_some _ _ _ hm]
+      apply List.ext_getElem
+      · simp
+      · intro i h1 h2
+        simp
 
 /-- `gen_params … -dsdna`: whichever way the strand was given, the residue graph handed to
 `MapToMolecule` carries the names `names ++ map comp (reverse names)`; without `-dsdna`, `names`. -/
@@ -1616,34 +1921,30 @@ theorem genParams_dsdna (tbl : List (String × String)) (inp : SeqInput)
     (∃ g, genParamsDsdna tbl inp true = .ok g ∧
         g.nodes.map (fun x => some x.resname) = inp.names.map some ++ inp.names.reverse.map (lookup tbl)) ∧
     (∃ g, genParamsDsdna tbl inp false = .ok g ∧ g.nodes.map (·.resname) = inp.names) := by
+  have key : ∀ (k0 r0 : Nat) (names : List String) (labels : List Attrs) (circ : Option Attrs),
+      1 ≤ names.length → (circ.isSome → 3 ≤ names.length) → (∀ nm ∈ names, (lookup tbl nm).isSome) →
+      ∃ g, complement tbl (strandGraphAt k0 r0 names labels circ) = .ok g ∧
+        g.nodes.map (fun x => some x.resname) = names.map some ++ names.reverse.map (lookup tbl) := by
+    intro k0 r0 names labels circ hn hc hk
+    obtain ⟨g, hs, hcm⟩ := complement_at k0 r0 tbl names labels circ hn hc hk
+    exact ⟨g, hcm, specGraphAt_resnames k0 r0 tbl names labels circ g hs⟩
   cases inp with
   | seq names =>
     simp only [SeqInput.names, SeqInput.circ] at hn hc hk
     constructor
-    · refine ⟨(finalGraph tbl names [] none).shiftKeys 0, ?_, ?_⟩
-      · simp only [genParamsDsdna, SeqInput.graph, if_true]
-        rw [strandGraphFrom_eq_shift, complement_shift, complement_eq_final tbl names [] none hn hc hk]; rfl
-      · rw [shiftKeys_resnames]; exact final_resnames tbl names [] none hk
+    · obtain ⟨g, h1, h2⟩ := key 0 1 names [] none hn hc hk
+      refine ⟨g, ?_, h2⟩
+      simp only [genParamsDsdna, SeqInput.graph, if_true]
+      rw [← strandGraphAt_one]; exact h1
     · refine ⟨_, rfl, ?_⟩
       simp only [SeqInput.graph, SeqInput.names]
-      rw [strandGraphFrom_eq_shift]
-      have := shiftKeys_resnames (strandGraph names [] none) 0 id
-      simp only [id] at this
-      rw [this]
-      exact strand_resnames names [] none
-  | seqFile k0 names labels circ =>
+      rw [← strandGraphAt_one]
+      exact strandGraphAt_resnames 0 1 names [] none
+  | seqFile k0 r0 names labels circ =>
     simp only [SeqInput.names, SeqInput.circ] at hn hc hk
     constructor
-    · refine ⟨(finalGraph tbl names labels circ).shiftKeys k0, ?_, ?_⟩
-      · simp only [genParamsDsdna, SeqInput.graph, if_true]
-        rw [strandGraphFrom_eq_shift, complement_shift, complement_eq_final tbl names labels circ hn hc hk]; rfl
-      · rw [shiftKeys_resnames]; exact final_resnames tbl names labels circ hk
-    · refine ⟨_, rfl, ?_⟩
-      simp only [SeqInput.graph, SeqInput.names]
-      rw [strandGraphFrom_eq_shift]
-      have := shiftKeys_resnames (strandGraph names labels circ) k0 id
-      simp only [id] at this
-      rw [this]
-      exact strand_resnames names labels circ
+    · obtain ⟨g, h1, h2⟩ := key k0 r0 names labels circ hn hc hk
+      exact ⟨g, by simpa [genParamsDsdna, SeqInput.graph] using h1, h2⟩
+    · exact ⟨_, rfl, strandGraphAt_resnames k0 r0 names labels circ⟩
 
 end PolyplyVerif.Proofs.Dna
